@@ -245,6 +245,8 @@ def gen_value(rng, rc, big=False):
         return bytes([v]), v
     if rc == UNITS:
         n = rng.choice([0, 1, 1, 2, 3, 4, 6, rng.randrange(0, 30)])
+        if big and rng.random() < 0.15:
+            n = rng.choice([127, 128, 129, 255, rng.randrange(128, 256)])      # length byte with its top bit set
         b = bytes(rng.choice(UNITS_CHARS) for _ in range(n))
         return enc_ident(b), cb(b)
     raise ValueError('representation code %r' % rc)
@@ -336,10 +338,11 @@ class Table:
         self.lr_type, self.set_type, self.set_name, self.template, self.objects = lr_type, set_type, set_name, template, objects
         self.object_ends = []
         self.template_end = 0
+        self.set_role = ROLE_SET          # ROLE_RSET / ROLE_RDSET: redundant / replacement set (RP66V1 3.2.2.1), same layout
 
     # ---- bytes
     def encode(self):
-        b = bytearray([ROLE_SET | SET_T | (SET_N if self.set_name is not None else 0)])
+        b = bytearray([self.set_role | SET_T | (SET_N if self.set_name is not None else 0)])
         b += enc_ident(self.set_type)
         if self.set_name is not None:
             b += enc_ident(self.set_name)
@@ -485,7 +488,7 @@ def random_template_attr(rng, label, codes, invariant=False, subset=None, big=Fa
             subset += 'V'       # an invariant attribute normally carries the value shared by all objects
     count = random_count(rng, big) if 'C' in subset else None
     rc = rng.choice(codes) if 'R' in subset else None
-    units = gen_value(rng, UNITS)[0][1:] if 'U' in subset else None
+    units = gen_value(rng, UNITS, big)[0][1:] if 'U' in subset else None
     vb = vv = None
     if 'V' in subset:
         ecount = 1 if count is None else count
@@ -506,7 +509,7 @@ def random_cell(rng, ta, codes, subset=None, big=False):
         subset += 'V'
     count = random_count(rng, big) if 'C' in subset else None
     rc = rng.choice(codes) if 'R' in subset else None
-    units = gen_value(rng, UNITS)[0][1:] if 'U' in subset else None
+    units = gen_value(rng, UNITS, big)[0][1:] if 'U' in subset else None
     vb = vv = None
     if 'V' in subset:
         ecount = e['count'] if count is None else count
@@ -540,12 +543,13 @@ def unique_names(rng, n):
 
 
 def random_table(rng, set_type=None, lr_type=None, codes=COMMON_CODES, max_attrs=8, max_objects=12, allow_invariant=True,
-                 allow_all_omitted=True, allow_absent=True, big=False, labels=None, label_codes=None):
-    """A random set.  labels/label_codes: fixed label list with the representation code each must use (ORIGIN etc.)."""
+                 allow_all_omitted=True, allow_absent=True, big=False, labels=None, label_codes=None, n_attrs=None, n_objects=None):
+    """A random set.  labels/label_codes: fixed label list with the representation code each must use (ORIGIN etc.).
+    n_attrs / n_objects: exact number of template attributes / objects instead of a random number up to max_attrs / max_objects."""
     if set_type is None:
         set_type, lr_type = random_set_type(rng)
     set_name = None if rng.random() < 0.4 else rand_ident(rng, 10)
-    nattr = rng.randrange(1, max_attrs + 1)
+    nattr = rng.randrange(1, max_attrs + 1) if n_attrs is None else n_attrs
     if labels is None:
         labs = unique_labels(rng, nattr)
     else:
@@ -555,7 +559,7 @@ def random_table(rng, set_type=None, lr_type=None, codes=COMMON_CODES, max_attrs
         inv = allow_invariant and rng.random() < 0.12
         cs = codes if label_codes is None else (label_codes[lab],)
         template.append(random_template_attr(rng, lab, cs, inv, big=big))
-    nobj = rng.choice([0, 1, 1, 2, 3, rng.randrange(0, max_objects + 1)])
+    nobj = rng.choice([0, 1, 1, 2, 3, rng.randrange(0, max_objects + 1)]) if n_objects is None else n_objects
     objects = []
     non_inv = [i for i, ta in enumerate(template) if not ta.invariant]
     for nm in unique_names(rng, nobj):
